@@ -87,11 +87,18 @@ def generate(gens, tier, res):
 def variant(b, i):
     """concretisation choices that vary from behaviour to behaviour (the specification does not distinguish them):
     every odd one has the Tick that follows a publication moved inside the publishing step (after its first clock
-    read); every fifth one has the origin label its cacheable answers gzip without their being gzip"""
+    read); every fifth one has the origin label its cacheable answers gzip without their being gzip; three of seven send
+    request headers (Range / only-if-cached / no-cache) with every request; every sixth one has the origin send an Age"""
     if i % 2 == 1:
         b['tick_inside'] = True
     if i % 5 == 2 and not b['cfg'].get('bodies'):
         b['cfg'] = dict(b['cfg'], bodies='corrupt_gzip')
+    # request headers pike's cache decisions do not depend on (every client of the behaviour sends them)
+    if i % 7 in (3, 5, 6) and not b['cfg'].get('req'):
+        b['cfg'] = dict(b['cfg'], req={3: 'range', 5: 'only_if_cached', 6: 'no_cache'}[i % 7])
+    # cacheable answers that carry an Age of their own (max-age raised by as much: the lifetime granted is the same)
+    if i % 6 == 4 and not b['cfg'].get('origin_age'):
+        b['cfg'] = dict(b['cfg'], origin_age=5)
     return b
 
 
@@ -145,7 +152,7 @@ def replay(harness, behs, shards=8, chunk=300):
                         q.kill()
                     raise
                 if p.returncode != 0:
-                    raise Infra('replay shard %d failed (exit %d):\n%s' % (i, p.returncode, o[-3000:]))
+                    raise Infra('replay shard %d failed (exit %d):\n%s\n...\n%s' % (i, p.returncode, o[:1500], o[-3000:]))
                 reports = json.load(open(os.path.join(tmp, 'report%d.json' % i)))
                 lines = open(os.path.join(tmp, 'trace%d.ndjson' % i)).read().splitlines()
                 outs.append((parts[i], reports, lines))
